@@ -38,6 +38,7 @@ import (
 	"strings"
 	"testing"
 
+	"github.com/btcsuite/btcd/btcutil/v2"
 	"github.com/btcsuite/btcd/chainhash/v2"
 	"github.com/btcsuite/btcd/wire/v2"
 	"github.com/lightningnetwork/lnd/chainntnfs"
@@ -97,6 +98,7 @@ type c14ConfClient struct {
 	done   bool
 
 	outstanding *chainntnfs.TxConfirmation
+	reorgedH    uint32 // inclusion height of the last reorged-out notice
 	informed    bool
 	infH        uint32
 	lastLeft    int64 // last Updates value since the last disconnect
@@ -111,6 +113,7 @@ type c14SpendClient struct {
 	done   bool
 
 	outstanding *chainntnfs.SpendDetail
+	reorgedTx   *chainhash.Hash // spender of the last reorged-out Spend
 }
 
 type c14M struct {
@@ -119,7 +122,12 @@ type c14M struct {
 	ch    *c14Chain
 	limit uint32
 	n     *chainntnfs.TxNotifier
-	cache c14Cache
+
+	// cache is what the oracle reads; ncache is what the notifier uses
+	// (the same object except for the bbolt QueryDisable variant).
+	cache  c14Cache
+	ncache c14Cache
+	bolt   *c14Bolt
 
 	session int
 
@@ -285,6 +293,7 @@ func (m *c14M) processConf(c *c14ConfClient, ck c14Call) {
 			m.failf("%s: NegativeConf(%d) but inclusion block %d "+
 				"was not disconnected", who, depth, c.infH)
 		}
+		c.reorgedH = c.infH
 		c.informed = false
 		c.outstanding = nil
 		c.lastLeft = -1
@@ -397,6 +406,9 @@ func (m *c14M) processConf(c *c14ConfClient, ck c14Call) {
 			m.flags["reincluded"] = true
 			m.flags["reconfirmed"] = true
 		}
+		if c.reorgedH != 0 && c.reorgedH != d.BlockHeight {
+			m.flags["reconfirmed_other_height"] = true
+		}
 		if c.r.txid == nil {
 			m.flags["script_conf"] = true
 		}
@@ -473,6 +485,7 @@ func (m *c14M) processSpend(c *c14SpendClient, ck c14Call) {
 			m.failf("%s: Reorg but spending block %d was not "+
 				"disconnected", who, c.outstanding.SpendingHeight)
 		}
+		c.reorgedTx = c.outstanding.SpenderTxHash
 		c.outstanding = nil
 		c.r.reorgSeen = true
 		m.flags["reorg_watched"] = true
@@ -515,6 +528,9 @@ func (m *c14M) processSpend(c *c14SpendClient, ck c14Call) {
 		if c.r.reorgSeen {
 			m.flags["reincluded"] = true
 			m.flags["respent"] = true
+		}
+		if c.reorgedTx != nil && *c.reorgedTx != *d.SpenderTxHash {
+			m.flags["respent_by_conflicting_tx"] = true
 		}
 		if c.r.op == nil {
 			m.flags["script_spend"] = true
@@ -1107,10 +1123,42 @@ func (m *c14M) rescan(final bool) {
 				m.flags["rescan_late_found"] = true
 			}
 		}
-		err := m.n.UpdateSpendDetails(r.req, details)
-		m.updateErr(err)
+		if f != nil && m.relevantTxOK(r) && m.pct("relevantTx") < 30 {
+			// The btcd/neutrino way: hand the spending tx itself to
+			// the notifier; it resolves every request it satisfies.
+			m.logf("    via ProcessRelevantSpendTx")
+			err := m.n.ProcessRelevantSpendTx(
+				btcutil.NewTx(f.tx.msg.Copy()), f.height,
+			)
+			if err != nil {
+				m.failf("ProcessRelevantSpendTx: %v", err)
+			}
+			m.flags["relevant_tx"] = true
+		} else {
+			err := m.n.UpdateSpendDetails(r.req, details)
+			m.updateErr(err)
+		}
 	}
 	m.afterCall(c14Call{kind: c14CkUpdate})
+}
+
+// relevantTxOK reports whether ProcessRelevantSpendTx may be used for r's
+// slot: it resolves *all* registered spend requests of the slot at once, so
+// while c14KeyNoClient is a known finding each of them needs a live client.
+func (m *c14M) relevantTxOK(r *c14SpendReq) bool {
+	if !vstats.IsKnown(c14KeyNoClient) {
+		return true
+	}
+	for _, o := range m.spendReqs {
+		if o.slot != r.slot || !o.everReg || o.session != m.session {
+			continue
+		}
+		if !m.hasLiveSpend(o) {
+			return false
+		}
+	}
+
+	return true
 }
 
 func c14FoundStr(f *c14Found) string {
@@ -1233,6 +1281,26 @@ func (m *c14M) midAction() {
 func (m *c14M) actConnect() {
 	ids := m.drawTxs(m.ch.pos, 30)
 	b := m.ch.makeBlock(m.ch.tipBlock().hash, m.ch.tip+1, ids)
+	if m.pct("outOfOrder") < 4 {
+		// Blocks must be connected/disconnected in order; a call with
+		// the wrong height is rejected and changes nothing.
+		var err error
+		switch c14Uniform(m.t, "oooKind", 3) {
+		case 0:
+			err = m.n.ConnectTip(b.blk, b.height+1)
+		case 1:
+			err = m.n.ConnectTip(b.blk, m.ch.tip)
+		default:
+			err = m.n.DisconnectTip(m.ch.tip - 1)
+		}
+		m.logf("out-of-order call at tip %d", m.ch.tip)
+		if err == nil {
+			m.failf("out-of-order connect/disconnect at tip %d "+
+				"accepted", m.ch.tip)
+		}
+		m.afterCall(c14Call{kind: c14CkUpdate})
+		m.flags["out_of_order"] = true
+	}
 	m.connectBlock(b, true)
 }
 
@@ -1394,39 +1462,69 @@ func (m *c14M) actRestart() {
 	}
 	m.session++
 	m.ch.consec = 0
-	m.n = chainntnfs.NewTxNotifier(m.ch.tip, m.limit, m.cache, m.cache)
+	if m.bolt != nil {
+		if err := m.bolt.reopen(); err != nil {
+			m.t.Fatalf("harness: reopen bbolt: %v", err)
+		}
+		m.cache, m.ncache = m.bolt.oracle, m.bolt.notifier
+	}
+	m.n = chainntnfs.NewTxNotifier(m.ch.tip, m.limit, m.ncache, m.ncache)
 	m.flags["restart"] = true
 }
 
 // ---------------------------------------------------------------------------
 // Case driver.
 
-func c14OpenBolt() (c14Cache, func(), error) {
-	dir, err := os.MkdirTemp("", "verif-c14-")
-	if err != nil {
-		return nil, nil, err
-	}
+// c14Bolt is the real channeldb.HeightHintCache on a bbolt file. The oracle
+// reads through a cache without QueryDisable; the notifier may get one with
+// QueryDisable set (it then ignores cached hints but still writes them).
+type c14Bolt struct {
+	dir      string
+	db       kvdb.Backend
+	disable  bool
+	oracle   *channeldb.HeightHintCache
+	notifier *channeldb.HeightHintCache
+}
+
+func (b *c14Bolt) open() error {
 	db, err := kvdb.GetBoltBackend(&kvdb.BoltBackendConfig{
-		DBPath:         dir,
+		DBPath:         b.dir,
 		DBFileName:     "hints.db",
 		NoFreelistSync: true,
 		DBTimeout:      kvdb.DefaultDBTimeout,
 	})
 	if err != nil {
-		_ = os.RemoveAll(dir)
-		return nil, nil, err
+		return err
 	}
-	cache, err := channeldb.NewHeightHintCache(channeldb.CacheConfig{}, db)
+	b.db = db
+	b.oracle, err = channeldb.NewHeightHintCache(
+		channeldb.CacheConfig{}, db,
+	)
 	if err != nil {
-		_ = db.Close()
-		_ = os.RemoveAll(dir)
-		return nil, nil, err
+		return err
+	}
+	b.notifier, err = channeldb.NewHeightHintCache(
+		channeldb.CacheConfig{QueryDisable: b.disable}, db,
+	)
+
+	return err
+}
+
+// reopen closes and reopens the database file: what survives is what was
+// really persisted.
+func (b *c14Bolt) reopen() error {
+	if err := b.db.Close(); err != nil {
+		return err
 	}
 
-	return cache, func() {
-		_ = db.Close()
-		_ = os.RemoveAll(dir)
-	}, nil
+	return b.open()
+}
+
+func (b *c14Bolt) close() {
+	if b.db != nil {
+		_ = b.db.Close()
+	}
+	_ = os.RemoveAll(b.dir)
 }
 
 func c14RunCase(t *rapid.T, st *vstats.Collector, bolt bool, maxLen int) {
@@ -1481,16 +1579,27 @@ func c14RunCase(t *rapid.T, st *vstats.Collector, bolt bool, maxLen int) {
 	}
 
 	if bolt {
-		cache, cleanup, err := c14OpenBolt()
+		dir, err := os.MkdirTemp("", "verif-c14-")
 		if err != nil {
+			t.Fatalf("harness: %v", err)
+		}
+		m.bolt = &c14Bolt{
+			dir:     dir,
+			disable: c14Uniform(t, "queryDisable", 100) < 20,
+		}
+		defer m.bolt.close()
+		if err := m.bolt.open(); err != nil {
 			t.Fatalf("harness: cannot open bbolt hint cache: %v", err)
 		}
-		defer cleanup()
-		m.cache = cache
+		m.cache, m.ncache = m.bolt.oracle, m.bolt.notifier
+		if m.bolt.disable {
+			m.flags["query_disable"] = true
+		}
 	} else {
-		m.cache = c14NewMemCache()
+		mc := c14NewMemCache()
+		m.cache, m.ncache = mc, mc
 	}
-	m.n = chainntnfs.NewTxNotifier(start, limit, m.cache, m.cache)
+	m.n = chainntnfs.NewTxNotifier(start, limit, m.ncache, m.ncache)
 	defer func() { m.n.TearDown() }()
 
 	steps := 5 + c14Uniform(t, "steps", maxLen-4)
